@@ -1,7 +1,12 @@
 import NanoVerif.Model.DriverMain
-/-! line-protocol driver of C03 (must not import Mathlib, directly or indirectly); stub until the family exists -/
+import NanoVerif.Driver.Bundle
+/-! line-protocol driver of C03 (must not import Mathlib, directly or indirectly) -/
 open NanoVerif
 
-def handle (_fam : String) (_rest : List String) : Option String := none
+def handle (fam : String) (rest : List String) : Option String :=
+  match fam with
+  | "bundle" => Driver.Bundle.handleBundle rest
+  | "ellipsoid" => Driver.Bundle.handleEllipsoid rest
+  | _ => none
 
 def main : IO Unit := DriverMain.run handle
